@@ -302,7 +302,7 @@ def report(prop, res, known, tier, seed, extra_cov, assumptions, t0, rule, sampl
     Returns the exit code."""
     new_viol = []
     known_hits = {}
-    os.makedirs(os.path.join(core.VERIF, "replays"), exist_ok=True)
+    os.makedirs(os.path.join(core.OUT, "replays"), exist_ok=True)
     for v in res.violations:
         case = res.cases[v["case"]]
         for pc in v["clauses"]:
@@ -341,7 +341,7 @@ def report(prop, res, known, tier, seed, extra_cov, assumptions, t0, rule, sampl
         nrep += 1
         if nrep > 25:
             continue
-        path = os.path.join(core.VERIF, "replays", "%s-%s.json" % (prop, sig))
+        path = os.path.join(core.OUT, "replays", "%s-%s.json" % (prop, sig))
         with open(path, "w") as fh:
             json.dump({"property": prop, "kind": "layout", "clause": clause, "where": v.get("where"), "msg": v.get("msg"),
                        "case": {k: x for k, x in case.items() if k != "case"},
